@@ -19,12 +19,18 @@ NoCfg == [mode |-> "none"]
 CfgOf(r) ==
   IF r.mode = "E"
   THEN [mode |-> "E", prior |-> r.prior, dims |-> r.dims, wr |-> r.wr, w |-> r.w, st |-> Stencil(r.wr, r.w), nb |-> NbTable(r.dims, Stencil(r.wr, r.w)), kappa |-> r.kappa,
-        beta |-> r.beta, gamma |-> r.gamma, eps |-> r.eps, convex |-> r.convex]
+        beta |-> r.beta, gamma |-> r.gamma, eps |-> r.eps, convex |-> r.convex,
+        sym |-> SymmetricW(r.wr, r.w), cfree |-> CentreFree(r.wr, r.w)]
   ELSE [mode |-> "F", prior |-> r.prior, dims |-> r.dims, wr |-> r.wr, hasKappa |-> r.hasKappa, only2D |-> r.only2D, convex |-> r.convex,
-        betaCeil |-> r.betaCeil, wsum |-> r.wsum, kmax2 |-> r.kmax2]
+        betaCeil |-> r.betaCeil, wsum |-> r.wsum, kmax2 |-> r.kmax2,
+        sym |-> (r.w4 = <<>> \/ SymmetricW(r.wr, r.w4)), cfree |-> (r.w4 = <<>> \/ CentreFree(r.wr, r.w4))]
 
 Good(r) == ~Has(r, "bad")
 SeqSet(s) == { s[i] : i \in 1..Len(s) }
+
+\* the implementation may refuse weights that are not Gibbs weights (and only those)
+RejectionOk(r) == /\ Good(r) /\ Len(r.wr) = 3 /\ Len(r.w) = WLen(r.wr)
+                  /\ (~SymmetricW(r.wr, r.w) \/ ~CentreFree(r.wr, r.w))
 
 ConfigOk(r) ==
   /\ Good(r)
@@ -35,10 +41,10 @@ ConfigOk(r) ==
           /\ Len(r.w) = WLen(r.wr) /\ \A i \in 1..Len(r.w) : r.w[i] >= 0
           /\ Len(r.kappa) \in {0, NVox(r.dims)} /\ \A i \in 1..Len(r.kappa) : r.kappa[i] >= 1
           /\ r.beta >= 1 /\ r.gamma >= 0 /\ r.eps >= 1
-          \* the clauses about derivatives and symmetry are claimed for Gibbs weights
-          /\ SymmetricW(r.wr, r.w) /\ CentreFree(r.wr, r.w)
      ELSE /\ r.mode = "F" /\ r.prior \in {"quad", "rdp", "logcosh", "pls"}
           /\ ~r.valueErr /\ r.betaCeil >= 1 /\ r.wsum >= 0 /\ r.kmax2 >= 1
+          /\ (r.prior = "logcosh" => r.par1000[3] >= 500)     \* domain of PMax
+          /\ Len(r.w4) \in {0, WLen(r.wr)} /\ (r.userw <=> r.w4 # <<>>) /\ \A i \in 1..Len(r.w4) : r.w4[i] >= 0
 
 N == NVox(c.dims)
 
@@ -47,10 +53,6 @@ N == NVox(c.dims)
 (***************************************************************************)
 SparseIs(nz, S) == /\ { <<nz[k][1], nz[k][2]>> : k \in 1..Len(nz) } = S
                    /\ Len(nz) = Cardinality(S)
-
-\* slack for single-precision evaluation: relative 2^-18 of the sum of the absolute values of the terms
-Slack(abssum) == abssum \div 262144 + 2
-Within(o, lo, hi, abssum) == o >= lo - Slack(abssum) /\ o <= hi + Slack(abssum)
 
 RCoef(n, i) == c.beta * n[2] * KK(c, i, n[1])
 RD3(a, b) == Cube(RD(c, a, b))
@@ -94,13 +96,20 @@ ExplainsE(r) ==
             ELSE r.k = KH /\ \A i \in 1..N :
                    LET s == r.o[i] * 2^KH + RHessTimesK(c, x, r.v, i)
                        wt == RTimesWeight(r.v, i) IN
-                   Within(r.out[i], s - wt, s + wt, 4 * RTimesAbsK(r.v, i) + Abs(r.o[i]) * 2^KH)
+                   Within(r.out[i], s - wt, s + wt, RTimesAbsK(r.v, i) + Abs(r.o[i]) * 2^KH)
     [] r.e = "HApprox" ->
          \* RelativeDifferencePrior documents this call as not implemented (error)
          IF c.prior = "quad"
          THEN /\ Good(r) /\ ~r.err /\ r.k = 0 /\ r.res = 0 /\ Len(r.out) = N
               /\ \A i \in 1..N : r.out[i] = r.o[i] + QApproxTimes(c, r.v, i)
          ELSE r.err
+    \* tuples of observations, judged without any formula of the prior:
+    \* "the gradient is the derivative of the value" -- exact central difference of a quadratic function
+    [] r.e = "FDE" -> Good(r) /\ c.prior = "quad" /\ r.k = 2 /\ r.res = 0 /\ r.vp - r.vm = 8 * r.g
+    \* "a Hessian row is the derivative of the gradient component": g_i(x + e_j) - g_i(x) = H_ij (gradient linear in x)
+    [] r.e = "JacE" -> Good(r) /\ c.prior = "quad" /\ r.k = 0 /\ r.res = 0 /\ r.gp - r.g0 = r.h
+    \* "The Hessian is symmetric"
+    [] r.e = "SymE" -> Good(r) /\ r.hij = r.hji
     [] OTHER -> FALSE
 
 (***************************************************************************)
@@ -110,7 +119,8 @@ HasHessian == c.prior # "pls"    \* PLSPrior does not override compute_Hessian /
 
 \* sum of n products of fixed-point factors, and the bound on the effect of the two quantisations
 Dot(a, b) == SumS(1..Len(a), LAMBDA i : a[i] * b[i])
-DotSlack(a, b) == SumS(1..Len(a), LAMBDA i : Abs(a[i]) + Abs(b[i])) \div 2 + Len(a)
+\* (plus 2^-14 of the sum of the absolute products for the single-precision evaluation of H v)
+DotSlack(a, b) == SumS(1..Len(a), LAMBDA i : Abs(a[i]) + Abs(b[i])) \div 2 + Len(a) + SumS(1..Len(a), LAMBDA i : Abs(a[i] * b[i])) \div 16384
 
 \* the voxels within the stencil radii of i (a superset of its neighbours)
 NearSet(i) == { j \in 1..N : j # i /\ Near(c.dims, c.wr, i, j) }
@@ -159,7 +169,7 @@ ExplainsF(r) ==
          /\ \A j \in 1..N :
               LET s == SumS(1..N, LAMBDA i : r.v[i] * r.cols[i][j])
                   a == SumS(1..N, LAMBDA i : Abs(r.v[i]) * (Abs(r.cols[i][j]) + 1)) IN
-              Abs(r.hv[j] - s) <= 2 + SumS(1..N, LAMBDA i : Abs(r.v[i])) + a \div 65536
+              Abs(r.hv[j] - s) <= 2 + SumS(1..N, LAMBDA i : Abs(r.v[i])) + a \div 32768
     \* "the gradient is the derivative of the value" as far as observations decide it (convex priors)
     [] r.e = "FDV" -> Good(r) /\ c.convex /\ r.i \in 1..N /\ FDVBracket(c, r)
     \* "the Hessian(-times-vector) is the (directional) derivative of the gradient", unit directions
@@ -181,16 +191,23 @@ PlsInterior(cc, i) ==
   LET d == cc.dims IN
   /\ CY(d, i) >= 1 /\ CY(d, i) <= d[2] - 2 /\ CX(d, i) >= 1 /\ CX(d, i) <= d[3] - 2
   /\ (cc.only2D \/ (CZ(d, i) >= 1 /\ CZ(d, i) <= d[1] - 2))
+\* C09-asymweights: set_weights()/the "weights" keyword accept weights with w[dr] # w[-dr]; the gradient is then
+\* not the derivative of the value and the Hessian is not symmetric (MC_Priors, InvA1).
+\* C09-centreweight: a non-zero weight at the centre of the stencil is added to the Hessian diagonal
+\* (compute_Hessian and accumulate_Hessian_times_input) although value and gradient do not depend on it.
 Classify(r, cc) ==
   IF cc.mode = "F" /\ cc.prior = "pls" /\ r.e = "FDV" /\ Has(r, "i") /\ (cc.hasKappa \/ ~PlsInterior(cc, r.i)) THEN "C09-plsgrad"
+  ELSE IF cc.mode \in {"E", "F"} /\ ~cc.sym /\ r.e \in {"FDE", "SymE", "H", "FDV", "PSD"} THEN "C09-asymweights"
+  ELSE IF cc.mode = "E" /\ ~cc.cfree /\ (r.e \in {"HRow", "HTimes"} \/ (r.e = "JacE" /\ r.i = r.j)) THEN "C09-centreweight"
+  ELSE IF cc.mode = "F" /\ ~cc.cfree /\ r.e = "FDG" /\ Has(r, "pass") /\ r.pass >= 1 THEN "C09-centreweight"
   ELSE "new"
 
 Init == l = 1 /\ c = NoCfg /\ x = <<>> /\ bad = <<>>
 Next == /\ l <= Len(TraceLog)
         /\ LET r == TraceLog[l] IN
-           /\ c' = IF r.e = "Config" THEN CfgOf(r) ELSE c
+           /\ c' = IF r.e = "Config" THEN CfgOf(r) ELSE IF r.e = "ConfigRejected" THEN NoCfg ELSE c
            /\ x' = IF r.e = "Config" THEN <<>> ELSE IF r.e = "Image" /\ c.mode # "none" THEN r.x ELSE x
-           /\ LET okr == IF r.e = "Config" THEN ConfigOk(r) ELSE Explains(r)
+           /\ LET okr == IF r.e = "Config" THEN ConfigOk(r) ELSE IF r.e = "ConfigRejected" THEN RejectionOk(r) ELSE Explains(r)
                   cls == IF okr THEN "ok" ELSE Classify(r, IF r.e = "Config" THEN CfgOf(r) ELSE c) IN
               bad' = IF okr THEN bad
                      ELSE IF cls = "new" THEN (IF Len(SelectSeq(bad, LAMBDA b : b[2] = "new")) < 500 THEN Append(bad, <<l, cls>>) ELSE bad)
